@@ -50,6 +50,7 @@ type Scenario struct {
 	Frames      []int  `json:"frames"`      // frame bases in chunk units (same on every GPU)
 	FrameChunks int    `json:"frameChunks"` // chunks per frame
 	Seed        int64  `json:"seed"`
+	SlowCtrl    bool   `json:"slowCtrl"` // the control side lets a few cycles pass before it takes a completion
 	Steps       []Step `json:"steps"`
 }
 
@@ -464,6 +465,9 @@ func (w *world) step(sc *Scenario, s Step) {
 			ok = w.envMig(s.G, s.Owner, realAddr(s.Owner, s.From), realAddr(s.G, s.To), uint64(s.N*unit), -1, -1)
 		}
 	case "TakeComplete":
+		if sc.SlowCtrl {
+			w.tick(3)
+		}
 		w.await(awaitMax, func() bool { return w.ctrl[s.G].PeekOutgoing() != nil })
 		ok = w.takeComplete(s.G)
 	case "NetTake":
@@ -625,9 +629,11 @@ type frameState struct {
 	holder *reqInfo
 }
 
-func (w *world) random(rng *rand.Rand, nreq, frameChunks int, serial bool, fs [][]*frameState) {
+func (w *world) random(rng *rand.Rand, nreq, frameChunks int, serial bool, fs [][]*frameState, onePMC, lazyCtrl bool) {
 	issued := 0
-	mood := 0 // 0 normal, 1 network stalled, 2 memory stalled, 3 control stalled
+	mood := 0                   // 0 normal, 1 network stalled, 2 memory stalled, 3 control stalled
+	target := 1 + rng.Intn(w.n) // onePMC: every request goes to this controller (they queue up behind each other)
+	idle, lastSeq := 0, w.rec.Seq
 	for steps := 0; steps < 60*nreq*frameChunks+400 && !w.panicked; steps++ {
 		if rng.Intn(25) == 0 {
 			mood = rng.Intn(4)
@@ -655,6 +661,9 @@ func (w *world) random(rng *rand.Rand, nreq, frameChunks int, serial bool, fs []
 				break
 			}
 			g := 1 + rng.Intn(w.n)
+			if onePMC {
+				g = target
+			}
 			o := 1 + rng.Intn(w.n-1)
 			if o >= g {
 				o++
@@ -703,12 +712,22 @@ func (w *world) random(rng *rand.Rand, nreq, frameChunks int, serial bool, fs []
 				w.memRspAt(g, rng.Intn(len(w.pend[g])))
 			}
 		case 9:
-			if mood != 3 {
+			if mood != 3 && !lazyCtrl {
 				w.takeComplete(1 + rng.Intn(w.n))
 			}
 		}
 		if rng.Intn(3) > 0 {
 			w.tick(1)
+		}
+		// lazyCtrl: the control side takes a completion only after the controllers have been silent for a
+		// while (a completion may then be stalled on the full port with further requests queued behind it)
+		if w.rec.Seq == lastSeq {
+			idle++
+		} else {
+			idle, lastSeq = 0, w.rec.Seq
+		}
+		if lazyCtrl && idle > 30 {
+			w.takeComplete(1 + rng.Intn(w.n))
 		}
 	}
 }
@@ -798,7 +817,9 @@ func main() {
 		}
 		w.emitReset(nil)
 		traces++
-		w.random(rng, *reqs, fc, serial, fs)
+		onePMC := !serial && rng.Intn(3) == 0
+		lazyCtrl := rng.Intn(3) == 0
+		w.random(rng, *reqs, fc, serial, fs, onePMC, lazyCtrl)
 		w.finish()
 	}
 	for i := 0; i < *nreal; i++ {
